@@ -167,11 +167,18 @@ Proof.
 Qed.
 
 (* the bits of the property: declared digits * log2(10), 64 when nothing is declared *)
-Lemma declared_bits_denote d :
+Lemma wf_prec_lt d : wf d -> match d_prec d with Some P => (Zpos P < 2 ^ 51)%Z | None => True end.
+Proof.
+  intros (_ & _ & _ & _ & _ & _ & Hpb). destruct (d_prec d) as [P|]; [|exact I].
+  destruct (d_legacy d); [exact Hpb|apply prec3_lt, Hpb].
+Qed.
+
+Lemma declared_bits_denote d : wf d ->
   declared_bits (denote d) = match d_prec d with Some P => Z.to_pos (prec_bits (Zpos P)) | None => 64%positive end.
 Proof.
+  intro Hwf. apply wf_prec_lt in Hwf.
   unfold declared_bits, denote. cbn [p_prec]. destruct (d_prec d) as [P|]; [|reflexivity].
-  pose proof (prec_bits_pos P). destruct (0 <? prec_bits (Z.pos P))%Z eqn:E; [reflexivity|lia].
+  pose proof (prec_bits_pos P Hwf). destruct (0 <? prec_bits (Z.pos P))%Z eqn:E; [reflexivity|lia].
 Qed.
 
 (* ONE end-to-end statement for FloatingPoint descriptions, every syntax, with or without a declared
